@@ -44,19 +44,19 @@ BUILT = {
          "Clone/alloc/to-owned/detach/drop in any order incl. original first, with a generated teardown order; per-drop state delta must equal exactly one dealloc of the buffer extent; values of drop-counting types (sized, and zero-sized guard types) dropped exactly once by the time their non-detached handle is gone; Unmount event exactly once at the last holder; when the last holder of a file-backed arena is an owned handle its release is read back from the file. One case in six is a multi-threaded Engine B program (clones, owned buffers sent between threads) in which every access to the reference count must observe the model's number of live arena values and the memory is released once, by the last holder, under the scheduler.",
          "Unmount event at the top of Memory::unmount stands for the release of the backing store", "5/C13"),
  "C14": ("buffer-engine", "exploration", "property testing of every buffer writer/reader against a reference encoder with whole-arena before/after snapshots and canary neighbours; round-trip relations",
-         "One generated buffer (fresh / recycled / aligned at odd cursor, borrowed / owned, capacity 0..96, any fill level) between canary neighbours; 1..5 generated calls over 12 integer types x 3 byte orders, LEB128, slices (put_slice / get_slice / get_slice_mut), the *_unchecked twins inside their contract, set_len, align_to/put/put_aligned over the type table plus two over-aligned types on arenas with maximum alignment 16 / 32 / 64, a third of the unsync cases on an arena that was resized first; out-of-buffer bytes compared byte for byte after every call; checked and unchecked builds.",
+         "One generated buffer (fresh / recycled / aligned at odd cursor, borrowed / owned, capacity 0..96, any fill level) between canary neighbours; 1..5 generated calls over 12 integer types x 3 byte orders, LEB128, slices (put_slice / write with lengths 0..100 and 2^32 + k, get_slice / get_slice_mut), the *_unchecked twins inside their contract, set_len, align_to/put/put_aligned over the type table plus two over-aligned types on arenas with maximum alignment 16 / 32 / 64, a third of the unsync cases on an arena that was resized first; out-of-buffer bytes compared byte for byte after every call; checked and unchecked builds.",
          "put::<T> is only called at positions aligned for T (its documented precondition; ZSTs are kept aligned too)", "5/C14"),
  "C15": ("reader-engine", "exploration", "property testing of arena-level readers against a reference decode of memory(), offsets dense around allocated() and at usize extremes, checked and unchecked builds",
-         "Arena filled with continuation-heavy content and rewound so that non-zero bytes lie above allocated(); every reader at generated offsets, on a quarter of the unsync cases after a truncate to a generated size (one case in 40: the arena lives in a file and is reopened with a capacity option below the stored cursor - refused, or consistent); fixed-width results compared with a reference decode iff the value lies below the mark (u128 arithmetic), varint results compared with the decoder applied to exactly the bytes below the mark.",
+         "Arena filled with continuation-heavy content and rewound so that non-zero bytes lie above allocated(); every reader at generated offsets, on a quarter of the unsync cases after a truncate to a generated size, one case in eight in a file mapped at an offset of one or two pages (one case in 40: the arena lives in a file and is reopened with a capacity option below the stored cursor - refused, or consistent); fixed-width results compared with a reference decode iff the value lies below the mark (u128 arithmetic), varint results compared with the decoder applied to exactly the bytes below the mark.",
          "const_varint (the crate rarena delegates to) is the varint reference for the slice; an independent LEB128 decoder cross-checks unsigned values", "5/C15"),
  "C16": ("engine-a", "exploration", "property testing of constructors against Options::data_offset*, accessor table, and 3-way differential (Vec/anon/file, unified layout) with memory() hashes per step",
          "Constructor cases around the prefix size for reserved 0..=4096 (and u32::MAX-k, which must be refused cleanly) on all backends and both flavours, accessor table and first-allocation offset; the accessor table, data_offset() and the remaining law are re-checked after every step for every live arena value (clones, reopened files); then one history in lock-step on Vec, anonymous-mmap and file arenas with byte-identical memory() after every step - every byte, header padding included; a sixteenth of the cases runs under an unoptimised build of the crate, where by-value copies carry what the stack held.",
          "Options::data_offset / data_offset_unify are the reference, as the statement says", "5/C16"),
  "C17": ("engine-a", "exploration", "stateful property testing with an i128 reference clamp for rewind; metamorphic relation cleared arena == fresh arena under the same continuation; checked and unchecked builds",
-         "Boundary-dense ArenaPosition values in every reachable state against an i128 reference, in histories that include truncate on unsync arenas (read-only reopened arenas included: there rewind must change nothing and must not crash); clear followed by a generated continuation also run on a fresh arena, observation streams compared.",
+         "Boundary-dense ArenaPosition values in every reachable state against an i128 reference, in histories that include truncate on unsync arenas (read-only reopened arenas included: there rewind must change nothing and must not crash); clear followed by a generated continuation also run on a fresh arena, observation streams and the bytes in front of the data area (identification block, padding, header) compared.",
          "rewind/clear contracts respected by the harness (handles above the new cursor forgotten, free list reaching above it discarded first)", "5/C17"),
  "C18": ("engine-a", "exploration", "stateful property testing on unsync::Arena with truncate steps, before/after state relation",
-         "truncate(n) for n around allocated/capacity and up to 4x capacity on the three backends after histories with free list and detached live data, incl. file arenas reopened writable or copy-on-write, and about 30 cases per quick run on arenas of 1 GiB or more, where 4x capacity passes u32::MAX (there the call must fail and change nothing); capacity law, unchanged state and bytes, later fitting allocations must succeed.",
+         "truncate(n) for n around allocated/capacity and up to 4x capacity on the three backends after histories with free list and detached live data, incl. file arenas reopened writable or copy-on-write (also through a descriptor without write access, where a growing truncate is refused by the operating system and must change nothing), and about 30 cases per quick run on arenas of 1 GiB or more, where 4x capacity passes u32::MAX (there the call must fail and change nothing); capacity law, unchanged state and bytes, later fitting allocations must succeed.",
          "truncate only while refs()==1 and no handle object exists", "5/C18"),
  "C19": ("checksum-engine", "exploration", "property testing: chunked checksum == one-shot checksum by the same builder, with a position-sensitive second builder",
          "Allocated lengths hit exactly at k*page-2..k*page+2 for k<=3 plus random lengths, reserved 0..=64, three backends, all three free-list kinds with a released block in the middle of the fill (non-empty list inside the checksummed header), file cases optionally in a later read-only session; checksum(b) compared with b.checksum_one(allocated_memory()[reserved_bytes()..]) - both sides as the arena reports them - for Crc32 and a position-weighted sum that detects dropped/repeated/reordered chunks.",
